@@ -46,6 +46,8 @@ func (e *c05Env) context() *plush.Context {
 		return template.HTML(out), err
 	})
 	c.Set("st", c05Failer{e})
+	c.Set("pst", &Person{Name: "P"})
+	c.Set("vst", Person{Name: "V"})
 	c.Set("blk", func(help plush.HelperContext) (template.HTML, error) {
 		s, err := help.Block()
 		return template.HTML("{" + s + "}"), err
@@ -86,6 +88,9 @@ var c05Atoms = []c05Atom{
 	{"unknown-ident", `nope`, "unknown"},
 	{"unknown-func-call", `nope()`, "mustfail"},
 	{"unknown-arg", `ident(nope)`, "mustfail"},
+	{"missing-method-on-pointer", `pst.Nope()`, "mustfail"},
+	{"missing-method-on-value", `vst.Nope()`, "mustfail"},
+	{"missing-method-with-args", `pst.Nope(1, "x")`, "mustfail"},
 	{"partial-with-unknown-ident", `partial("pnope")`, "mustfail"},
 	{"render-with-unknown-ident", `rnd("<%= nope %>")`, "mustfail"},
 }
@@ -194,7 +199,7 @@ func init() {
 			return s
 		},
 		Run:  c05Run,
-		Rule: "compositions wrapper^d ∘ statement-form ∘ expression-context^e ∘ failing-atom framed by literal text A…B: 12 block wrappers (top, if, else, for, fn body, helper block, contentFor→contentOf plain / with a default block / with data, contentOf default block, partial body, layout), 12 statement forms (emit, silent, let, assign, if/else-if condition, for iterable, return, partial/contentOf data), 35 expression contexts (each operand side of all 13 binary operators, !, array/hash element, index container/index, Go-helper/user-fn/method argument), 16 failing atoms (helper returning (T,err)/(err), method returning (T,err), failing helper/method as head of a .field/.method()/[i] chain, type error, index out of range, division by zero — each with a recording call so 'reached' is measured — unknown identifier, unknown function, unknown identifier as argument, unknown identifier inside a partial / a helper-rendered template). Oracle when the failing site was reached: err != nil, output empty, errors.Is(err, sentinel) for helper failures; an unknown identifier is tolerated exactly as direct condition or direct operand of ! == != && || and fails everywhere else. Non-trivial: the failing site was reached (counted).",
+		Rule: "compositions wrapper^d ∘ statement-form ∘ expression-context^e ∘ failing-atom framed by literal text A…B: 12 block wrappers (top, if, else, for, fn body, helper block, contentFor→contentOf plain / with a default block / with data, contentOf default block, partial body, layout), 12 statement forms (emit, silent, let, assign, if/else-if condition, for iterable, return, partial/contentOf data), 35 expression contexts (each operand side of all 13 binary operators, !, array/hash element, index container/index, Go-helper/user-fn/method argument), 19 failing atoms (helper returning (T,err)/(err), method returning (T,err), failing helper/method as head of a .field/.method()/[i] chain, type error, index out of range, division by zero — each with a recording call so 'reached' is measured — unknown identifier, unknown function, unknown identifier as argument, unknown identifier inside a partial / a helper-rendered template, a method that does not exist on a pointer / value receiver). Oracle when the failing site was reached: err != nil, output empty, errors.Is(err, sentinel) for helper failures; an unknown identifier is tolerated exactly as direct condition or direct operand of ! == != && || and fails everywhere else. Non-trivial: the failing site was reached (counted).",
 		Bound: func(th bool) string {
 			if th {
 				return "d<=2 wrappers, e<=2 expression contexts"
